@@ -125,66 +125,11 @@ func factoryOf(in c16In) (matchers.Factory, error) {
 }
 
 // evaluates one view `repeats` times on the same match; returns the distinct texts, sorted
+// proper prefixes of UTF-8 encodings: c3 a9, e2 80 a6 / e2 80 a8, e2 82 ac, ef bb bf, f0 9f 98 80, f4 8f bf bf
+var truncatedTails = []string{"\xc3", "\xe2", "\xe2\x80", "\xe2\x82", "\xef", "\xef\xbb", "\xf0", "\xf0\x9f", "\xf0\x9f\x98", "\xf4", "\xf4\x8f", "\xf4\x8f\xbf"}
+
 // names the context resolves itself before (or instead of) looking at the name table
 var reservedNames = []string{"src", "line", ".", "#", ".#", "#.", "@"}
-
-// a group called . # .# #. or @: a change that resolves a member through GetKey would recurse without
-// end (a fatal stack overflow): such cases are evaluated in a child process
-func hasRecursiveName(in c16In) bool {
-	for _, n := range in.Names {
-		switch unhexs(n.Name) {
-		case ".", "#", ".#", "#.", "@":
-			return true
-		}
-	}
-	return false
-}
-
-var viewChildCache = map[string]*seqWire{}
-
-func runViewChild(in c16In, vi int) ([]string, string) {
-	kb, _ := json.Marshal(in)
-	w, ok := viewChildCache[string(kb)]
-	if !ok {
-		w = &seqWire{}
-		out, errNote := runChild("viewchild", in)
-		if errNote != "" {
-			w.Note = errNote
-		} else if e := json.Unmarshal(out, w); e != nil {
-			w.Note = "unreadable result of the evaluation process: " + e.Error()
-		}
-		viewChildCache[string(kb)] = w
-	}
-	var texts []string
-	if w.Texts[vi] != nil {
-		for _, t := range w.Texts[vi]["0"] {
-			texts = append(texts, unhexs(t))
-		}
-	}
-	return texts, w.Note
-}
-
-func viewChildMain() {
-	var in c16In
-	if err := json.NewDecoder(os.Stdin).Decode(&in); err != nil {
-		fmt.Fprintln(os.Stderr, "viewchild: bad input", err)
-		os.Exit(2)
-	}
-	var w seqWire
-	var notes []string
-	for vi, expr := range []string{"{.}", "{#}", "{.#}"} {
-		texts, note := runView(in, expr)
-		if note != "" {
-			notes = append(notes, expr+": "+note)
-		}
-		w.Texts[vi] = map[string][]string{"0": {}}
-		for _, t := range texts {
-			w.Texts[vi]["0"] = append(w.Texts[vi]["0"], hex.EncodeToString([]byte(t)))
-		}
-	}
-	w.Note = strings.Join(notes, "; ")
-	json.NewEncoder(os.Stdout).Encode(w)
-}
 
 func runView(in c16In, expr string) ([]string, string) {
 	f, err := factoryOf(in)
@@ -633,15 +578,12 @@ func c16Run(in c16In) (out c16Out) {
 		named, numbered bool
 		dst             *[]string
 	}{{"{.}", true, false, &out.Dot}, {"{#}", false, true, &out.Hash}, {"{.#}", true, true, &out.Both}}
-	var cliTexts [][]string
-	if in.Via == "cli" {
+	var raw [3][]string
+	if needsRaw(in) {
 		var note string
-		cliTexts, note = runCli(in, []string{"{.}", "{#}", "{.#}"})
+		raw, note = rawTexts(in)
 		if note != "" {
 			notes = append(notes, note)
-		}
-		if cliTexts == nil {
-			cliTexts = make([][]string, 3)
 		}
 	}
 	var pipeTexts [3]map[string][]string
@@ -665,18 +607,14 @@ func c16Run(in c16In) (out c16Out) {
 	for vi, v := range views {
 		var texts []string
 		var note string
-		if in.Via == "cli" {
-			texts = cliTexts[vi]
-		} else if isSeq {
+		if isSeq {
 			texts = seqT[vi]
 		} else if in.Via == "pipeline" {
 			if pipeTexts[vi] != nil {
 				texts = pipeTexts[vi][unhexs(in.Line)]
 			}
-		} else if hasRecursiveName(in) {
-			texts, note = runViewChild(in, vi)
 		} else {
-			texts, note = runView(in, v.expr)
+			texts = raw[vi]
 		}
 		if note != "" {
 			notes = append(notes, v.expr+": "+note)
@@ -739,6 +677,10 @@ func c16Case(in c16In) Case {
 	}
 	sort.Slice(in.Names, func(a, b int) bool { return in.Names[a].Name < in.Names[b].Name })
 	sort.Slice(in.Keys, func(a, b int) bool { return in.Keys[a].Key < in.Keys[b].Key })
+	if collecting {
+		pendingIns = append(pendingIns, in)
+		return Case{}
+	}
 	out := c16Run(in)
 	tbl := make([]string, len(in.Names))
 	for i, n := range in.Names {
@@ -971,7 +913,7 @@ var boolShapes = []string{"fal\u017fe", "FAL\u017fE", "Fal\u017fe", "fAL\u017fe"
 	"tru", "truee", "ſ", "fal\xc5e", "falſ", "fal\xc5\xbf", "fal\xc5\xbfe\xff", "Kelvin", "tʀue", "yes", "null", "nil", "TRUE\x00", "trüe", "FALSΕ"}
 
 var spice = []string{"\"", "\\", "/", "\\\"", "\\u0041", "\\n", "\x00", "\x01", "\x07", "\x08", "\t", "\n", "\x0b", "\x0c", "\r", "\x0e", "\x1b", "\x1f", " ", "\x7f",
-	"\u00e9", "\u00a0", "\u2028", "\ufffd", "\U0001F600", "\ufeff", "\x80", "\xff", "\xc3", "\xc0\xaf", "\xed\xa0\x80", "\xf4\x90\x80\x80", "\xe2\x82", "{", "}", ",", ":", "'", "[", "]"}
+	"\u00e9", "\u00a0", "\u2028", "\ufffd", "\U0001F600", "\ufeff", "\x80", "\xff", "\xc3", "\xc0\xaf", "\xed\xa0\x80", "\xf4\x90\x80\x80", "\xe2\x82", "\xe2\x80", "\xe2", "\xf0\x9f", "\xf0\x9f\x98", "\xef\xbb", "\u2029", "\u0085", "\u2026", "{", "}", ",", ":", "'", "[", "]"}
 
 var words = []string{"GET", "POST", "index.html", "200", "404", "abc", "x", "INFO", "error", "user=bob", "10.0.0.1", "a b", "-", "_"}
 
@@ -1396,7 +1338,23 @@ func genPipeline(r *Rng, shape int) []c16In {
 	return out
 }
 
+// two passes over the same random stream: the first only collects the inputs (the generator never
+// looks at an output), which are then evaluated by the batch child; the second builds the cases
+var collecting bool
+var pendingIns []c16In
+
 func c16Gen(r *Rng, n int, tier string) []Case {
+	saved := *r
+	collecting, pendingIns = true, nil
+	c16GenBody(r, n, tier)
+	collecting = false
+	prefetchRaw(pendingIns)
+	pendingIns = nil
+	*r = saved
+	return c16GenBody(r, n, tier)
+}
+
+func c16GenBody(r *Rng, n int, tier string) []Case {
 	var cases []Case
 	// exhaustive: every byte value alone in a named group and embedded in a numbered group
 	for b := 0; b < 256; b++ {
@@ -1433,6 +1391,36 @@ func c16Gen(r *Rng, n int, tier string) []Case {
 	for i := 0; i < 8; i++ {
 		for _, in := range genPipeline(r, i%4) {
 			if !inKnownDomain(in) {
+				cases = append(cases, c16Case(in))
+			}
+		}
+	}
+	// invalid UTF-8 built from truncated multi-byte sequences: every proper prefix of a 2-, 3- and 4-byte
+	// encoding at the end of the value, at its start, before an ASCII byte and alone; complete U+2028,
+	// U+2029, U+0085, U+FEFF; as a capture (the line then ends / starts the same way) and as a member name
+	{
+		hx := func(x string) string { return hex.EncodeToString([]byte(x)) }
+		var vals []string
+		for _, p := range truncatedTails {
+			vals = append(vals, "abc"+p, p+"abc", "ab"+p+"c", p)
+		}
+		for _, c := range []string{"\u2028", "\u2029", "\u0085", "\ufeff"} {
+			vals = append(vals, c, "abc"+c, "ab"+c+"c")
+		}
+		for i, v := range vals {
+			line := "x " + v
+			if i%2 == 1 {
+				line = v + " x"
+			}
+			at := strings.Index(line, v)
+			cases = append(cases, c16Case(c16In{Names: []c16Name{{hx("v"), 1}}, Line: hx(line), Indices: []int{0, len(line), at, at + len(v)}, Via: "scripted"}))
+			cases = append(cases, c16Case(c16In{Names: []c16Name{{hx(v), 1}}, Line: hx("GET 200"), Indices: []int{0, 7, 4, 7}, Via: "scripted"}))
+		}
+		for _, v := range []string{"abc\xe2\x80", "\xf0\x9f", "\u2028"} { // through the real matchers as well
+			if in, ok := fromMatcher("regex", `^(?s)(?P<v>.*) (\d+)$`, []byte(v+" 200")); ok {
+				cases = append(cases, c16Case(in))
+			}
+			if in, ok := fromMatcher("dissect", "%{n} %{v"+strings.ReplaceAll(v, "}", "")+"}", []byte("200 "+v)); ok {
 				cases = append(cases, c16Case(in))
 			}
 		}
@@ -1547,8 +1535,8 @@ func main() {
 		seqChildMain()
 		return
 	}
-	if len(os.Args) >= 2 && os.Args[1] == "viewchild" {
-		viewChildMain()
+	if len(os.Args) >= 2 && os.Args[1] == "rawbatch" {
+		rawBatchMain()
 		return
 	}
 	if len(os.Args) >= 2 && os.Args[1] == "pipechild" {
@@ -1558,7 +1546,7 @@ func main() {
 	Main(&Prop{
 		Name:   "C16",
 		Header: "From Coq Require Import List NArith ZArith String.\nFrom RareV Require Import Corr.C16Case.\nImport ListNotations.\nOpen Scope Z_scope. Open Scope string_scope.\n",
-		Rule: "fixed part: every byte value 0..255 alone in a named group and embedded in a numbered group; every numeric shape (007, 1., .5, -1, 1e5, 00.1, -0, +1, ...) and boolean shape (ASCII case variants; near-misses that are equal only under Unicode folding or not at all: U+017F long s, Kelvin sign U+212A, full-width letters, combining marks, look-alikes) alone under 0/1/2 names; 0..4 names over the same groups. " +
+		Rule: "every evaluation runs in a child process of the harness (a crash or hang is the observation `no text` of that one case). fixed part: values, member names and lines with every proper prefix of a 2-, 3- and 4-byte UTF-8 encoding (c3, e2, e2 80, e2 82, ef, ef bb, f0, f0 9f, f0 9f 98, f4, f4 8f, f4 8f bf) at the end, at the start, before an ASCII byte and alone, and complete U+2028, U+2029, U+0085, U+FEFF; every byte value 0..255 alone in a named group and embedded in a numbered group; every numeric shape (007, 1., .5, -1, 1e5, 00.1, -0, +1, ...) and boolean shape (ASCII case variants; near-misses that are equal only under Unicode folding or not at all: U+017F long s, Kelvin sign U+212A, full-width letters, combining marks, look-alikes) alone under 0/1/2 names; 0..4 names over the same groups. " +
 			"pipeline part (8 fixed-shape scenarios, then about 1/6 of the seeded cases): 2..4 sources whose line numbers all start at 1 (one line each / one-line batches interleaved round robin / only first lines match / free; lines repeated across sources) are pushed through ONE extractor.New with a real regexp matcher and a JSON view as the expression, with Workers 1 and 2..4, twice each, either as scripted InputBatches in a generated interleaving or as temp files under $VERIF_WORK read by batchers.OpenFilesToChan; every emitted match is grouped by its line and each distinct matching line is one case: all texts ever rendered for that line (whatever was rendered before it) must be the one text of its own captures. " +
 			"width part: scripted matches with 0, 1, 9, 10, 11, 99, 100, 101, 110, 130, 450 and 1000 capture groups (fields of words, numbers, empty texts, unmatched groups), unnamed and named (names on the last / first / middle / 100th group), a regexp with 130 and 100 groups and a dissect pattern with 105 and 99 tokens, and one sequence scenario over lines of width 0..450 with {json <view> <index>} queries for the indices 0, 9, 10, 11, 99, 100, 101, 110, 129, 449, 450: the member name of group i is its decimal numeral for every i. " +
 			"stateful part (8 sequence + 3 concurrent scenarios in quick, 60 + 12 in thorough; one case per distinct line): {.}, {#}, {.#} and {json <view> <member>} queries are each compiled ONCE, optimised and unoptimised, and evaluated (inside an extractor.IgnoreSet probe, i.e. on the workers' real expression contexts, besides the extractor's own shared key builder) over 5..9 different matches of one scripted matcher — an all-empty probe-like context first, different group counts, unmatched groups, lines sharing the text of group 0, texts needing escapes followed by plain ones, adjacent repeats — either as one sequence with Workers 1 (every evaluation also compared with a fresh compile) or from 4..8 workers at once behind a start barrier, 2500 evaluations of every expression per worker (every 16th compared with a fresh compile); all texts ever produced for a line must be the one text of that line alone, and every query must give the member's text. " +
